@@ -1,7 +1,7 @@
 (* C04 - property theorems.  Statements, [exact], [Print Assumptions]; nothing else. *)
 From Coq Require Import List ZArith Bool Arith Sorting.Sorted Sorting.Permutation.
 Import ListNotations.
-From NessaiV Require Import Lib.ListOps Lib.ListOps_proofs Model.C04_Store Proofs.C04_Store_proofs.
+From NessaiV Require Import Lib.ListOps Lib.ListOps_proofs Model.C04_Store Proofs.C04_Store_proofs Proofs.C04_Status_proofs.
 
 (* A history: initial insertion, then any sequence (no depth bound) of batch insertions,
    threshold updates, removals and finalisation, in any of the four modes.  If every call
@@ -71,6 +71,27 @@ Theorem C04_step_inv :
   forall s o s' n, Inv s -> is_init o = false -> step s o = Some (s', n) -> Inv s'.
 Proof. exact step_inv. Qed.
 Print Assumptions C04_step_inv.
+
+(* Statuses are preserved (soft threshold): after add_samples every discarded index points at the very
+   sample it pointed at before, every previously live index likewise, the new live indices point at the
+   batch; old_indices / new_indices are exactly the positions of the old samples / of the batch in the
+   new store.  Hypothesis: samples are distinguishable (no two stored or added samples are identical). *)
+Theorem C04_status_preserved :
+  forall (s s' : store) (b : list (srow * qrow)),
+    Inv s -> NoDup (rows s ++ map fst b) -> strict s = false -> add_samples s b = Some s' ->
+    take dflt_row (rows s') (dead s') = take dflt_row (rows s) (dead s)
+    /\ Permutation (take dflt_row (rows s') (live_list s')) (take dflt_row (rows s) (live_list s) ++ map fst b).
+Proof. intros s s' b HI Hd. exact (status_preserved s b HI Hd s'). Qed.
+Print Assumptions C04_status_preserved.
+
+Theorem C04_index_remap :
+  forall (s : store) (b : list (srow * qrow)),
+    Inv s -> NoDup (rows s ++ map fst b) ->
+    let new := add_arange 0 (a_idx s b) in
+    take dflt_row (a_rows s b) new = a_bs b
+    /\ take dflt_row (a_rows s b) (inverse_indices (length (a_rows s b)) new) = rows s.
+Proof. intros s b HI Hd new. split; [exact (new_positions s b)|exact (old_positions s b Hd)]. Qed.
+Print Assumptions C04_index_remap.
 
 (* Refuted variant (defect D6, repaired in /repo by a fix: commit): locating the threshold with
    argmax of the mask reports 0 removed samples when the threshold is above every live sample. *)
